@@ -10,12 +10,8 @@ import OttoVerif.C05.Spec
 namespace OttoVerif.C09.Spec
 open OttoVerif.F64 OttoVerif.Str OttoVerif.C05 OttoVerif.C09
 
-/-- §9.4 ToInteger as an integer or ±∞ -/
-def toInteger (E : Env) (v : Val) : EInt :=
-  match C05.Spec.toNumber E.c5 v with
-  | .nan => .fin 0
-  | .inf s => if s then .ninf else .pinf
-  | .fin s m e => .fin (truncInt (.fin s m e))
+/-- §9.4 ToInteger as an integer or ±∞: ToNumber, then NaN ↦ +0, ±∞ kept, else sign(x)·floor(|x|) -/
+def toInteger (E : Env) (v : Val) : EInt := EInt.ofNumber (C05.Spec.toNumber E.c5 v)
 
 /-- min(max(x, lo), hi) -/
 def clamp (x : EInt) (lo hi : Int) : Int :=
@@ -23,6 +19,12 @@ def clamp (x : EInt) (lo hi : Int) : Int :=
   | .ninf => min lo hi
   | .pinf => hi
   | .fin i => min (max i lo) hi
+
+/-- an optional position argument: `undefined` stands for the given default, anything else is ToInteger'd -/
+def optPos (E : Env) (v : Val) (dflt : EInt) : EInt :=
+  match v with
+  | .undef => dflt
+  | e => toInteger E e
 
 /-- §9.8 ToString of an argument value, as code units -/
 def toString (E : Env) (v : Val) : List Nat := U (toStr E v)
@@ -105,19 +107,19 @@ def lastIndexOf (E : Env) (r : Recv) (args : List Val) : Res :=
     let start := (clamp pos 0 S.length).toNat
     .int (searchDown S searchStr start)
 
+/-- §15.5.4.13 steps 6–7: a relative position (negative counts from the end), clamped to [0, len] -/
+def relIndex (len : Int) (x : EInt) : Int :=
+  match x with
+  | .ninf => 0
+  | .pinf => len
+  | .fin i => if i < 0 then max (len + i) 0 else min i len
+
 /-- §15.5.4.13 slice -/
 def slice (E : Env) (r : Recv) (args : List Val) : Res :=
   withThis E r fun S =>
     let len : Int := S.length
-    let rel (x : EInt) : Int :=
-      match x with
-      | .ninf => 0
-      | .pinf => len
-      | .fin i => if i < 0 then max (len + i) 0 else min i len
-    let from_ := rel (toInteger E (argAt args 0))
-    let to := match argAt args 1 with
-      | .undef => len
-      | e => rel (toInteger E e)
+    let from_ := relIndex len (toInteger E (argAt args 0))
+    let to := relIndex len (optPos E (argAt args 1) (.fin len))      -- step 5: end undefined means len
     let span := max (to - from_) 0
     .str (sub S from_.toNat (from_ + span).toNat)
 
@@ -126,22 +128,22 @@ def substring (E : Env) (r : Recv) (args : List Val) : Res :=
   withThis E r fun S =>
     let len : Int := S.length
     let finalStart := clamp (toInteger E (argAt args 0)) 0 len
-    let finalEnd := match argAt args 1 with
-      | .undef => len
-      | e => clamp (toInteger E e) 0 len
+    let finalEnd := clamp (optPos E (argAt args 1) (.fin len)) 0 len   -- step 5: end undefined means len
     .str (sub S (min finalStart finalEnd).toNat (max finalStart finalEnd).toNat)
+
+/-- Annex B.2.3 step 5: Result(2) if it is positive or zero, else max(Result(4) + Result(2), 0) -/
+def substrStart (len : Int) (x : EInt) : Int :=
+  match x with
+  | .ninf => 0
+  | .pinf => len        -- +∞: Result(6) is −∞ ≤ 0, exactly as for any start ≥ len
+  | .fin i => if i ≥ 0 then i else max (len + i) 0
 
 /-- Annex B.2.3 substr (step 1 is a plain ToString(this): no coercibility check) -/
 def substr (E : Env) (r : Recv) (args : List Val) : Res :=
   let S := thisStringNoCheck E r
   let len : Int := S.length
-  let r5 : Int := match toInteger E (argAt args 0) with
-    | .ninf => 0
-    | .pinf => len        -- +∞: Result(6) is −∞ ≤ 0, as for any start ≥ len
-    | .fin i => if i ≥ 0 then i else max (len + i) 0
-  let r3 : EInt := match argAt args 1 with
-    | .undef => .pinf
-    | l => toInteger E l
+  let r5 := substrStart len (toInteger E (argAt args 0))
+  let r3 : EInt := optPos E (argAt args 1) .pinf                       -- step 3: length undefined means +∞
   let r6 := clamp r3 0 (len - r5)
   if r6 ≤ 0 then .str [] else .str (sub S r5.toNat (r5 + r6).toNat)
 
